@@ -378,8 +378,11 @@ impl fmt::Debug for Type<'_> {
 impl fmt::Display for Type<'_> {
     fn fmt(&self, f: &mut fmt::Formatter) -> fmt::Result {
         let root = self.ctx.get_root_ref(&self.inner.bound);
+        // Number of nodes of complete types (which are displayed by `Final`) shown so far.
+        // They count towards the maximum length just like our own nodes.
+        let mut n_final_nodes = 0;
         for data in (&self.ctx, root).verbose_pre_order_iter::<NoSharing>(Some(MAX_DISPLAY_DEPTH)) {
-            if data.index > MAX_DISPLAY_LENGTH {
+            if data.index + n_final_nodes > MAX_DISPLAY_LENGTH {
                 write!(f, "... [truncated type after {} nodes]", MAX_DISPLAY_LENGTH)?;
                 return Ok(());
             }
@@ -392,7 +395,10 @@ impl fmt::Display for Type<'_> {
             let bound = data.node.0.get(&data.node.1);
             match (bound, data.n_children_yielded) {
                 (Bound::Free(ref s), _) => f.write_str(s)?,
-                (Bound::Complete(ref comp), _) => fmt::Display::fmt(comp, f)?,
+                (Bound::Complete(ref comp), _) => {
+                    let budget = MAX_DISPLAY_LENGTH.saturating_sub(data.index + n_final_nodes);
+                    n_final_nodes += comp.fmt_bounded(f, budget)?;
+                }
                 (Bound::Sum(..), 0) | (Bound::Product(..), 0) => {
                     if data.index > 0 {
                         f.write_str("(")?;
